@@ -73,6 +73,9 @@ func runC16(c *Ctx) {
 	}
 	c16R6(c, p)
 	c16R1(c, p, ev, pk)
+	// "every pseudo-legal move exactly once": the hash move is yielded on IsPseudoLegal's word and skipped
+	// later by comparing with the generated moves, so acceptor and generator must describe the same set
+	c.As("C05.R", "C16.R7.acceptor-vs-generator:R", func() { c05R1R4(c, p); c05R2(c, p); c05R7(c, p) })
 	if c.Tier == "thorough" {
 		if sp := c.need("spsa"); sp != nil {
 			tun := c16Tunables(c, sp)
